@@ -1,7 +1,7 @@
 (* Glue for pipeline cases (C01 and C02): the implementation's run of the real batchers+extractor
    is compared with the sequential reference of Model/Extract.v over lines_spec of each input. *)
 From Coq Require Import List NArith ZArith Bool Arith String.
-From RareV Require Import Base.Hex Base.Res Base.Num Model.Lines Model.Batch Model.Pipeline Model.Ctx Model.Extract Corr.Run.
+From RareV Require Import Base.Hex Base.Res Base.Num Model.Lines Model.Batch Model.Pipeline Model.Ctx Model.Color Model.Extract Corr.Run Gen.GenColor.
 Import ListNotations.
 
 Record psrc := { p_name : bytes; p_ok : bool; p_stream : bytes; p_rerr : bool }.
@@ -15,7 +15,8 @@ Record pin := {
   i_ordered : bool                     (* one reader at a time and one worker: consumption order is input order *)
 }.
 (* one observed match: source name, line number, text at hand-out, text re-read after GC, indices, indices re-read, key *)
-Record pm := { o_src : bytes; o_no : N; o_line : bytes; o_line2 : bytes; o_ix : list Z; o_ix2 : list Z; o_key : bytes }.
+Record pm := { o_src : bytes; o_no : N; o_line : bytes; o_line2 : bytes; o_ix : list Z; o_ix2 : list Z; o_key : bytes;
+               o_wrapped : bytes (* `rare filter` output for the match, colour on *) }.
 Record pout := {
   o_completed : bool;
   o_R : N; o_M : N; o_I : N; o_errs : N;
@@ -29,8 +30,8 @@ Definition rl (ps : list (string * N)) : bytes :=
   flat_map (fun p => N.iter (snd p) (fun acc => unhex (fst p) ++ acc) []) ps.
 Definition S (name : string) (ok : bool) (stream : list (string * N)) (rerr : bool) : psrc :=
   {| p_name := unhex name; p_ok := ok; p_stream := rl stream; p_rerr := rerr |}.
-Definition Mt (src : string) (no : N) (line line2 : list (string * N)) (ix ix2 : list Z) (key : list (string * N)) : pm :=
-  {| o_src := unhex src; o_no := no; o_line := rl line; o_line2 := rl line2; o_ix := ix; o_ix2 := ix2; o_key := rl key |}.
+Definition Mt (src : string) (no : N) (line line2 : list (string * N)) (ix ix2 : list Z) (key wrapped : list (string * N)) : pm :=
+  {| o_src := unhex src; o_no := no; o_line := rl line; o_line2 := rl line2; o_ix := ix; o_ix2 := ix2; o_key := rl key; o_wrapped := rl wrapped |}.
 Definition L (s : string) := KLit (unhex s).
 Definition Nm (s : string) := KName (unhex s).
 Definition nm (s : string) (i : Z) := (unhex s, i).
@@ -67,9 +68,16 @@ Definition C01_check (i : pin) (o : pout) : bool :=
   all2 key_eqb (s_matches r) (o_sorted o).
 
 (* ---- C02: every field of every match; held values; order with one reader and one worker ---- *)
+(* cmd/filter.go: a single index pair highlights the whole match, otherwise only the groups *)
+Definition filter_groups (ix : list Z) : list Z := if (List.length ix =? 2)%nat then ix else skipn 2 ix.
+Definition filter_ok (o : pm) : bool :=
+  match wrap_indices GroupColors Reset (o_line o) (filter_groups (o_ix o)) with
+  | Ok w => bytes_eqb w (o_wrapped o) && (if no_esc (o_line o) then bytes_eqb (strip_sgr (o_wrapped o)) (o_line o) else true)
+  | Panic => false
+  end.
 Definition match_eqb (m : mtch) (o : pm) : bool :=
   key_eqb m o && bytes_eqb (e_line m) (o_line o) && bytes_eqb (o_line2 o) (o_line o) &&
-  zl_eqb (e_ix m) (o_ix o) && zl_eqb (o_ix2 o) (o_ix o).
+  zl_eqb (e_ix m) (o_ix o) && zl_eqb (o_ix2 o) (o_ix o) && filter_ok o.
 Definition ord_eqb (m : mtch) (p : bytes * N) : bool := bytes_eqb (e_src m) (fst p) && (e_no m =? snd p)%N.
 Definition C02_check (i : pin) (o : pout) : bool :=
   let r := ref_of i in
